@@ -1660,6 +1660,9 @@ def run(ck):
         ck.ob('E3-backends', 'agreement-under-operation-sequences', first is None, 'quizx/src/vec_graph.rs, quizx/src/hash_graph.rs',
               'the two back ends, the counts and the adjacency must stay consistent with the graph the operations describe: %s' % first, sample={'states': tot_states, 'operations': tot_ops})
         ck.floor('E3-backends-states', tot_states, 900)
+        if first is None:
+            why = 'the behaviour under operation sequences was decided by E3-backends in this run'
+            ck.positive_only = dict((r, why) for r in ('R-PAIR-repr', 'R-SIB-events', 'R-SIB-failure', 'R-SIB-orientation', 'R-SIB-presence', 'R-PAIR-pack', 'R-TABLE-accessor', 'R-BOUNDS-total'))
         ck.note('back ends: %d distinct pairs of representations reached by %d operations (depth-bounded, from three seed graphs), every observable compared with a model after each' % (tot_states, tot_ops))
     except (_mr.NoEval, _mr.Proceed, TypeError, KeyError, IndexError, AttributeError, ValueError) as ex:
         ck.ob3('E3-backends', 'evaluable', None, 'quizx/src/vec_graph.rs, quizx/src/hash_graph.rs', 'the back ends are not evaluable by the interpreter (%s: %s): behaviour under operation sequences is not decided (the per-method rules below still are)' % (type(ex).__name__, ex))
